@@ -110,3 +110,14 @@ theorem clip_of_inBox {lb ub p : Vec α} (h : InBox lb ub p) : clip p lb ub = p 
         simp [clip, clip1_of_mem h.1.1 h.1.2, ih h.2]
 
 end Lbfgsb
+
+namespace Lbfgsb
+theorem vzip_length' {α : Type} (f : α → α → α) (a b : Vec α) :
+    (vzip f a b).length = min a.length b.length := by
+  induction a generalizing b with
+  | nil => simp [vzip]
+  | cons x xs ih =>
+    cases b with
+    | nil => simp [vzip]
+    | cons y ys => simp [vzip, ih, Nat.succ_min_succ]
+end Lbfgsb
